@@ -46,8 +46,11 @@ type Ctl struct {
 	// (a channel of the code under test); it does not count as running until its next hook point.
 	ParkPoints map[string]bool
 	parked     map[uint64]bool
+	born       map[uint64]bool // goroutines first seen at a birth point (they end at an exit point)
 	// NewRole names a goroutine first seen at a birth point.
 	NewRole func(point string, obj any) string
+	// NewRoleArg, when set, is used instead of NewRole (it also sees the hook argument).
+	NewRoleArg func(point string, obj any, arg any) string
 	// PassFn, when set, decides per call whether a (non-exit, non-park) point passes without blocking.
 	PassFn func(point string, obj any) bool
 	// OnPass is called (with the controller lock held) for every pass-through point.
@@ -59,10 +62,13 @@ type Ctl struct {
 func New() *Ctl {
 	c := &Ctl{waiting: map[uint64]*Waiter{}, roles: map[uint64]string{}, steps: map[uint64]int{},
 		Pass: map[string]bool{}, SpawnPoints: map[string]bool{}, BirthPoints: map[string]bool{}, ExitPoints: map[string]bool{},
-		ParkPoints: map[string]bool{}, parked: map[uint64]bool{}}
+		ParkPoints: map[string]bool{}, parked: map[uint64]bool{}, born: map[uint64]bool{}}
 	c.cond = sync.NewCond(&c.mu)
 	return c
 }
+
+// Debug prints every controlled hook call.
+var Debug = false
 
 // GoID returns the id of the calling goroutine.
 func GoID() uint64 {
@@ -96,16 +102,22 @@ func (c *Ctl) hook(point string, obj any, arg any, filter bool) {
 			return
 		}
 		role = fmt.Sprintf("g%d", gid)
-		if c.NewRole != nil {
+		if c.NewRoleArg != nil {
+			role = c.NewRoleArg(point, obj, arg)
+		} else if c.NewRole != nil {
 			role = c.NewRole(point, obj)
 		}
 		c.roles[gid] = role
+		c.born[gid] = true
 		c.running++
 		if c.pendingSpawn > 0 {
 			c.pendingSpawn--
 		}
 	}
 	c.steps[gid]++
+	if Debug {
+		fmt.Printf("HOOK gid=%d role=%s point=%s known=%v born=%v running=%d\n", gid, role, point, known, c.born[gid], c.running)
+	}
 	if c.parked[gid] {
 		delete(c.parked, gid)
 		c.running++
@@ -120,12 +132,18 @@ func (c *Ctl) hook(point string, obj any, arg any, filter bool) {
 		c.mu.Unlock()
 		return
 	}
+	if c.ExitPoints[point] && !c.born[gid] {
+		// a thread started through Go/Do merely passes an exit point; it ends when its function returns
+		c.mu.Unlock()
+		return
+	}
 	if c.ExitPoints[point] {
 		if c.OnPass != nil {
 			c.OnPass(role, point, obj, arg)
 		}
 		c.running--
 		delete(c.roles, gid)
+		delete(c.born, gid)
 		c.cond.Broadcast()
 		c.mu.Unlock()
 		return
@@ -165,7 +183,13 @@ func (c *Ctl) Go(role string, fn func()) {
 		close(started)
 		defer func() {
 			c.mu.Lock()
-			c.running--
+			if c.parked[gid] {
+				// it announced a block outside the controller and ends without another hook point:
+				// it was already taken out of the running count
+				delete(c.parked, gid)
+			} else {
+				c.running--
+			}
 			delete(c.roles, gid)
 			c.cond.Broadcast()
 			c.mu.Unlock()
